@@ -37,10 +37,10 @@ class NullFunction(Function):
     return 0
 
   def deriv(self, x):
-    return 0
+    return np.zeros(np.array(x).size)
 
   def hess(self, x):
-    return 0
+    return np.zeros((np.array(x).size, np.array(x).size))
 
 
 class SumFunction(Function):
